@@ -1,6 +1,7 @@
 import PMV.Driver.Util
 import PMV.Model.Rename
 import PMV.Generated.Names
+import PMV.Model.Hoist
 namespace PMV.Driver.Rename
 open PMV PMV.Driver PMV.Rename
 
@@ -45,6 +46,23 @@ def assignCmd (args : List Sexp) : Option String := do
     let sorted := (rs.toArray.qsort fun a b => a.b.idx < b.b.idx).toList
     let show_ (o : Option String) : String := match o with | some s => s | none => "N"
     pure (" ".intercalate (sorted.map fun r => encStr (show_ r.b.name ++ ">" ++ show_ r.final)))
+  | _ => none
+
+end PMV.Driver.Rename
+
+namespace PMV.Driver.Rename
+open PMV PMV.Driver
+
+/-- `hoist.place ((path..) ..)` → the chosen namespace -/
+def hoistPlace (args : List Sexp) : Option String := do
+  match args with
+  | [.list ps] =>
+    let paths ← ps.mapM fun p => match p with
+      | .list xs => xs.mapM nat?
+      | _ => none
+    match Hoist.place paths with
+    | some n => pure (toString n)
+    | none => pure "none"
   | _ => none
 
 end PMV.Driver.Rename
